@@ -21,12 +21,33 @@ def _tracked_consts(body):
         if t and t["k"] == "switch" and t["op"]["k"] in ("copy", "move") and not t["op"]["pl"]["p"]:
             sw.add(t["op"]["pl"]["l"])
     out = set()
+    # close under copies: `let flag = <tmp>` where <tmp> receives constants
+    copies = {}
+    for l in list(sw):
+        for bi, si, whole in body.defs.get(l, []):
+            if si != "T" and whole:
+                rv = body.blocks[bi]["stmts"][si]["rv"]
+                if rv["k"] == "use" and rv["op"]["k"] in ("copy", "move") and not rv["op"]["pl"]["p"]:
+                    sw.add(rv["op"]["pl"]["l"])
     for l in sw:
         for bi, si, whole in body.defs.get(l, []):
             if si != "T" and whole:
                 rv = body.blocks[bi]["stmts"][si]["rv"]
                 if rv["k"] == "use" and rv["op"]["k"] == "const" and "int" in rv["op"]:
                     out.add(l)
+    # a local copied from a tracked one is tracked too
+    changed = True
+    while changed:
+        changed = False
+        for l in sw:
+            if l in out:
+                continue
+            for bi, si, whole in body.defs.get(l, []):
+                if si != "T" and whole:
+                    rv = body.blocks[bi]["stmts"][si]["rv"]
+                    if rv["k"] == "use" and rv["op"]["k"] in ("copy", "move") and not rv["op"]["pl"]["p"] and rv["op"]["pl"]["l"] in out:
+                        out.add(l)
+                        changed = True
     return out
 
 
@@ -71,6 +92,8 @@ def explore(body, init, events, delta, on_exit, start=0, start_state=None, follo
                 rv = s["rv"]
                 if rv["k"] == "use" and rv["op"]["k"] == "const" and "int" in rv["op"]:
                     cd[pl["l"]] = rv["op"]["int"]
+                elif rv["k"] == "use" and rv["op"]["k"] in ("copy", "move") and not rv["op"]["pl"]["p"] and rv["op"]["pl"]["l"] in cd:
+                    cd[pl["l"]] = cd[rv["op"]["pl"]["l"]]
                 else:
                     cd.pop(pl["l"], None)
         t = blk["term"]
@@ -87,6 +110,7 @@ def explore(body, init, events, delta, on_exit, start=0, start_state=None, follo
                     break
             if bad is None and k != "unreachable":
                 rc = classify_ret(body, cur0) if (k == "return" and track_ret) else None
+                explore.last0 = cur0
                 bad = on_exit(s2, k, rc, bb)
             if bad and bad not in viols:
                 viols[bad] = Violation(bad, path_of(node))
@@ -103,11 +127,17 @@ def explore(body, init, events, delta, on_exit, start=0, start_state=None, follo
                 continue
             s2 = st
             bad = None
+            pruned = False
             for ev in events(bb, e):
                 s2 = delta(s2, ev)
+                if isinstance(s2, str) and s2 == "#prune":
+                    pruned = True  # the rule knows this path is infeasible (contradictory facts)
+                    break
                 if isinstance(s2, str) and s2.startswith("!"):
                     bad = s2[1:]
                     break
+            if pruned:
+                continue
             if bad is not None:
                 if bad not in viols:
                     viols[bad] = Violation(bad, path_of(node) + [e.dst])
